@@ -169,7 +169,10 @@ class Type1FontHeaderParser(PSStackParser[int]):
 
     def do_keyword(self, pos: int, token: PSKeyword) -> None:
         if token is self.KEYWORD_PUT:
-            ((_, key), (_, value)) = self.pop(2)
+            operands = self.pop(2)
+            if len(operands) != 2:
+                return
+            ((_, key), (_, value)) = operands
             if isinstance(key, int) and isinstance(value, PSLiteral):
                 self.add_results((key, literal_name(value)))
 
